@@ -274,7 +274,7 @@ func c01Matrix() []c01cell {
 	}
 	// B. JSON positions: schema kind x position x required
 	for _, k := range c01Structured() {
-		for _, pos := range []string{"component", "property", "reqbody", "respbody", "reqbody-comp", "resp-comp", "items", "addl"} {
+		for _, pos := range []string{"component", "property", "reqbody", "respbody", "reqbody-comp", "resp-comp", "resp-comp-alias2", "items", "addl"} {
 			for _, req := range []bool{true, false} {
 				if !req && pos != "property" {
 					continue
@@ -305,6 +305,12 @@ func c01Matrix() []c01cell {
 				case "resp-comp":
 					sp.CompResponses["Result"] = dialect.Response{Content: "application/json", Schema: k.mk()}
 					o.Responses = []dialect.Response{{Status: "200", Ref: "Result"}}
+				case "resp-comp-alias2":
+					// through two aliases
+					sp.CompResponses["Result"] = dialect.Response{Content: "application/json", Schema: k.mk()}
+					sp.CompResponses["Same"] = dialect.Response{Ref: "Result"}
+					sp.CompResponses["Outer"] = dialect.Response{Ref: "Same"}
+					o.Responses = []dialect.Response{{Status: "200", Ref: "Outer"}}
 				}
 				sp.Paths = []*dialect.PathItem{{Raw: "/x", Ops: []*dialect.Op{o}}}
 				add(fmt.Sprintf("json/%s/%s/req=%v", k.name, pos, req), sp, "json", k.name, pos)
@@ -645,7 +651,7 @@ func runC01(c runCfg) error {
 			var sel []c01cell
 			for _, cl := range all {
 				big := cl.tags[0] == "param" || cl.tags[0] == "json" || cl.tags[0] == "resphdr" || cl.tags[0] == "name" || cl.tags[0] == "text"
-				if !big || rng.Intn(4) == 0 {
+				if !big || rng.Intn(4) == 0 || (len(cl.tags) > 2 && cl.tags[2] == "resp-comp-alias2") {
 					sel = append(sel, cl)
 				}
 			}
